@@ -36,3 +36,15 @@ def SQ.run (s : SQ) : List Op → SQ × List Out
 def TQ.abs (q : TQ) : SQ := q.iter
 
 end Sc3Verif.C09
+
+namespace Sc3Verif.C09
+
+/-- the same drain on the specification: always run the head, apply what it does, repeat -/
+def SQ.drain (beh : Nat → List Op) : Nat → SQ → List Nat
+  | 0, _ => []
+  | fuel + 1, s =>
+    match s with
+    | [] => []
+    | (_, t) :: rest => t :: SQ.drain beh fuel (SQ.run rest (beh t)).1
+
+end Sc3Verif.C09
